@@ -40,6 +40,7 @@ STD_ROLES = ((0, 1), (0,), (1,), (2,), (3,))
 ROLE_DESCRIPTIONS = [{"key": "r0", "plural": "r0s", "subroles": ["r0s0", "r0s1"]}, {"key": "r1", "plural": "r1s"},
                      {"key": "r2", "plural": "r2s", "max": 1}]
 SIDES = "oc23456789"
+ROUTES = "gdap"
 
 
 class Malformed(Exception):
@@ -169,6 +170,8 @@ def parse_op(s):
         return ("d", _nat(f[1]), None if f[2] == "*" else parse_period(f[2]))
     if f[0] in ("k", "a", "g") and len(f) == 3:
         return (f[0], _nat(f[1]), parse_period(f[2]))
+    if f[0] in ("q", "u") and len(f) == 5 and f[1] in ROUTES and len(f[1]) == 1:
+        return (f[0], _nat(f[3]), parse_period(f[4]), f[1], _nat(f[2]))
     if f[0] == "t" and len(f) == 2 and f[1] in ("0", "1"):
         return ("t", f[1] == "1")
     if f[0] == "h" and len(f) == 2:
@@ -443,13 +446,29 @@ def make_input(values, vt, style, tbs):
     return numpy.array([numpy.datetime64(EPOCH) + numpy.timedelta64(int(x), "D") for x in values], dtype="datetime64[D]")
 
 
+def entity_plural(k):
+    return "persons" if k == 0 else f"g{k}s"
+
+
+def route(sim, r, ent):
+    """the population a caller gets through `get_population(plural)`, `populations[key]`, the `simulation.<key>`
+    shortcut or `simulation.persons`"""
+    if r == "g":
+        return sim.get_population(entity_plural(ent))
+    if r == "d":
+        return sim.populations[entity_key(ent)]
+    if r == "a":
+        return getattr(sim, entity_key(ent))
+    return sim.persons
+
+
 def apply_op(sim, names, vtypes, op, style=0, tbs=None):
     """one public-API call; -> canonical result (`ok`, a vector, or `ERR` when the implementation raised).
     `style` varies the spelling of the arguments (Period object / period text, list / ndarray / dtype)."""
     import numpy
 
-    name = names[op[1]] if op[0] in "sdkagh" and op[1] < len(names) else f"v{op[1]}"
-    vt = vtypes[op[1]] if op[0] in "sdkagh" and op[1] < len(vtypes) else "f"
+    name = names[op[1]] if op[0] in "sdkaghqu" and op[1] < len(names) else f"v{op[1]}"
+    vt = vtypes[op[1]] if op[0] in "sdkaghqu" and op[1] < len(vtypes) else "f"
     text = style % 2 == 1
     try:
         if op[0] == "s":
@@ -466,6 +485,10 @@ def apply_op(sim, names, vtypes, op, style=0, tbs=None):
             return show_vec(sim.calculate(name, real_period(op[2], text)), vt)
         if op[0] == "a":
             return show_vec(sim.calculate_add(name, real_period(op[2], text)), "f" if vt in "eb" else vt)
+        if op[0] == "q":
+            return show_vec(route(sim, op[3], op[4])(name, real_period(op[2], text)), vt)
+        if op[0] == "u":
+            return show_vec(route(sim, op[3], op[4]).get_holder(name).get_array(real_period(op[2])), vt)
         if op[0] == "t":
             sim.trace = op[1]
             return "ok"
@@ -557,9 +580,12 @@ def observe(sim, vtypes) -> str:
         pops.append(f"e{pop_index(key)}:{b(pop.simulation is sim)}{b(members is None or members is sim.persons)}:n{pop.count}:i"
                     + ".".join(str(i) for i in pop.ids) + ":"
                     + ".".join(str(int(g)) for g in (mei if mei is not None else [])) + rtxt + ":[" + " ".join(hs) + "]")
+    rts = ".".join(str(pop_index(key)) + "".join(b(route(sim, r, pop_index(key)).simulation is sim) for r in "gda")
+                   for key in sorted(sim.populations, key=pop_index))
     return (f"d{b(sim.debug)}o{b(sim.opt_out_cache)}m{sim.max_spiral_loops}t{b(sim.trace)}{b(full)}[" + " ".join(roots)
             + f"]s{len(tracer.stack)}i[" + " ".join(inval) + "]p"
-            + b(sim.populations.get("person") is sim.persons) + "{" + " ".join(pops) + "}")
+            + b(sim.populations.get("person") is sim.persons) + "q" + b(sim.persons.simulation is sim) + rts
+            + "{" + " ".join(pops) + "}")
 
 
 def _disk_dir(disk):
